@@ -1,10 +1,13 @@
 //! Harness for the Span API / macro properties: C03 C10.
 mod c03;
+mod c10;
+mod c10_gen;
 
 fn main() {
     let args = mc::parse_args();
     let code = match args.property.as_str() {
         "C03" => c03::run(&args),
+        "C10" => c10::run(&args),
         p => {
             eprintln!("h_span: unknown property {}", p);
             2
